@@ -5,6 +5,14 @@
     - {"kind": "grid", "n", "lo", "w", "m", "table", "slope", "q", "c"}   on R^n:
           f(x) = table[cell(x)] + slope.x + q*|x-c|^2   (cell = clamped floor grid: plateaus + jumps; q, slope
           optional smooth part).  Total: defined (and finite) for every float vector incl. inf/nan.
+    - {"kind": "sep", "n", "lo", "w", "m", "table", "rot", "eps", "base", "slope", "q", "c", "abs", "quant"}  on R^n
+          for ANY n (size of the description is O(n + m)):
+          f(x) = base + eps * sum_i table[(cell_i(x_i) + i*rot) mod m] + Q( slope.x + q*|x-c|^2 + sum_i a_i*|x_i - k_i| )
+          Q = identity, or floor to multiples of 2^-quant (plateaus and exact ties of a smooth function);
+          eps = 2^-40 with base = 1.0 gives exact dyadic gaps of 2^-40; "abs" gives kinks.
+    - a "table" given as {"gen": seed, "mode": ..., "eps": ..., "base": ...} is expanded by gen_values (own splitmix64
+      generator: no dependence on the random module), so that 1000-state instances stay a one-line replayable case.
+* any objective may carry a "pit": its value at one exact point shifted (see make_objective).
 * Recorder: the recording proxy put between the solver and the objective (snapshots every argument at call time).
 * judge_*: the property statement evaluated on (result, trace).  Exact: only ==, <= and unary minus on the floats
   the objective itself produced.
@@ -39,8 +47,56 @@ class Ring:
         return s if isinstance(s, int) else s[0]
 
 
+_M64 = (1 << 64) - 1
+
+
+def splitmix(seed: int):
+    """Tiny self-contained generator (splitmix64) -> function returning the next 64-bit integer."""
+    st = [(seed * 0x9E3779B97F4A7C15 + 0x1234567) & _M64]
+
+    def nxt():
+        st[0] = (st[0] + 0x9E3779B97F4A7C15) & _M64
+        z = st[0]
+        z = ((z ^ (z >> 30)) * 0xBF58476D1CE4E5B9) & _M64
+        z = ((z ^ (z >> 27)) * 0x94D049BB133111EB) & _M64
+        return z ^ (z >> 31)
+
+    return nxt
+
+
+def gen_values(g, count):
+    """Deterministic value list from {"gen": seed, "mode", "eps", "base"}.  Every value is base + eps*k with an
+    integer k, i.e. exactly representable for the (eps, base) pairs used (eps a power of two, |k| small)."""
+    nxt = splitmix(g["gen"])
+    mode, eps, base = g.get("mode", "small"), g.get("eps", 1), g.get("base", 0)
+    out = []
+    a = max(1, int(count * 0.618))  # multiplier coprime to count: i -> (a*i + seed) mod count is a bijection
+    while math.gcd(a, count) != 1:
+        a += 1
+    for i in range(count):
+        r = nxt()
+        if mode == "binary":
+            k = r % 2
+        elif mode == "small":
+            k = r % 6 - 2
+        elif mode == "perm":  # all distinct
+            k = (i * a + g["gen"]) % count
+        elif mode == "pit":  # plateau with rare pits and spikes
+            k = (0, 0, 0, 0, 0, 0, 0, -1, 7, 0)[r % 10]
+        elif mode == "early":  # the unique best value sits among the first states, the rest is rugged and worse
+            k = -5 if i == g.get("at", 1) % count else r % 4
+        else:
+            raise ValueError(mode)
+        out.append(base + eps * k)
+    return out
+
+
+def expand_table(t, count):
+    return gen_values(t, count) if isinstance(t, dict) else list(t)
+
+
 def table_objective(spec, negate=False):
-    table = list(spec["table"])
+    table = expand_table(spec["table"], spec["K"])
     if negate:
         return lambda s: -table[Ring.idx(s)]
     return lambda s: table[Ring.idx(s)]
@@ -82,6 +138,97 @@ def grid_objective(spec, negate=False):
     return f
 
 
+def _vec(v, n):
+    return [v] * n if isinstance(v, (int, float)) else list(v)
+
+
+def sep_objective(spec, negate=False):
+    n, lo, w, m = spec["n"], spec.get("lo", 0.0), spec.get("w", 1.0), spec.get("m", 1)
+    table = expand_table(spec.get("table") or [0], m)
+    rot, eps, base = spec.get("rot", 0), spec.get("eps", 1), spec.get("base", 0)
+    slope, q, c = _vec(spec.get("slope", 0), n), spec.get("q", 0), _vec(spec.get("c", 0), n)
+    ab = spec.get("abs")  # [[a_i, k_i]] * n  or one [a, k] for every coordinate
+    if ab is not None and not isinstance(ab[0], (list, tuple)):
+        ab = [ab] * n
+    quant = spec.get("quant")
+    smooth = any(slope) or q or ab
+
+    def f(x):
+        steps = 0
+        sm = 0.0
+        for i in range(n):
+            xi = _cl(x[i])
+            if m > 1 or table[0]:
+                k = int(math.floor((xi - lo) / w))
+                k = 0 if k < 0 else (m - 1 if k > m - 1 else k)
+                steps += table[(k + i * rot) % m]
+            if slope[i]:
+                sm += slope[i] * xi
+            if q:
+                sm += q * (xi - c[i]) * (xi - c[i])
+            if ab:
+                sm += ab[i][0] * abs(xi - ab[i][1])
+        v = base + eps * steps
+        if smooth:
+            if quant is not None:
+                sm = math.floor(sm * 2.0 ** quant) / 2.0 ** quant
+            v += sm
+        return v
+
+    if negate:
+        return lambda x: -f(x)
+    return f
+
+
+def sep_gradient(spec, kink="right"):
+    """(Sub)gradient of the smooth part of a sep objective; at a kink x_i == k_i the one-sided derivative
+    (kink='right': +a, 'left': -a) or 0 ('zero')."""
+    n = spec["n"]
+    slope, q, c = _vec(spec.get("slope", 0), n), spec.get("q", 0), _vec(spec.get("c", 0), n)
+    ab = spec.get("abs")
+    if ab is not None and not isinstance(ab[0], (list, tuple)):
+        ab = [ab] * n
+    at = {"right": 1, "left": -1, "zero": 0}[kink]
+
+    def g(x):
+        out = []
+        for i in range(n):
+            xi = _cl(x[i])
+            v = slope[i] + 2 * q * (xi - c[i])
+            if ab:
+                d = xi - ab[i][1]
+                v += ab[i][0] * (1 if d > 0 else (-1 if d < 0 else at))
+            out.append(v)
+        return out
+
+    return g
+
+
+def fd_gradient(f, n, h):
+    """Forward differences of the user's objective (what a user without derivatives hands to bfgs)."""
+    def g(x):
+        x = [float(v) for v in x]
+        f0 = f(x)
+        out = []
+        for i in range(n):
+            y = list(x)
+            y[i] += h
+            out.append((f(y) - f0) / h)
+        return out
+
+    return g
+
+
+def make_gradient(spec, mode):
+    """Gradient callback of the user's f (user's sign) for bfgs/lbfgs.  mode: 'analytic' | 'table' (grid only) |
+    'right'/'left'/'zero' (sep: convention at a kink) | {'fd': h}."""
+    if isinstance(mode, dict):
+        return fd_gradient(make_objective(spec), spec["n"], mode["fd"])
+    if spec["kind"] == "sep":
+        return sep_gradient(spec, "right" if mode == "analytic" else mode)
+    return grid_gradient(spec, mode)
+
+
 def grid_gradient(spec, mode):
     """Gradient callback for bfgs/lbfgs.  'analytic': gradient of the smooth part (zero on the plateaus);
     'table': an arbitrary deterministic vector field read from the cell (the book-keeping claim does not
@@ -100,7 +247,42 @@ def grid_gradient(spec, mode):
 
 
 def make_objective(spec, negate=False):
-    return table_objective(spec, negate) if spec["kind"] == "table" else grid_objective(spec, negate)
+    """spec["pit"] = {"x": point, "d": delta}: the value at exactly that point (compared as a snapshot) is shifted
+    by delta - a discontinuity at one point, used to plant 'the best candidate' at a chosen evaluation of a run."""
+    pit = spec.get("pit")
+    if pit is None:
+        if spec["kind"] == "table":
+            return table_objective(spec, negate)
+        if spec["kind"] == "sep":
+            return sep_objective(spec, negate)
+        return grid_objective(spec, negate)
+    base = make_objective({k: v for k, v in spec.items() if k != "pit"})
+    px, d = pit["x"], pit["d"]
+
+    def f(x):
+        v = base(x)
+        return v + d if snap(x) == px else v
+
+    if negate:
+        return lambda x: -f(x)
+    return f
+
+
+def gen_points(g, bounds):
+    """Deterministic points from {"gen": seed, "count": k, "outside": one-in-N or 0}: coordinates on lo / hi /
+    fractions of the box, occasionally outside it."""
+    nxt = splitmix(g["gen"])
+    out = []
+    for _ in range(g["count"]):
+        p = []
+        for lo, hi in bounds:
+            r = nxt() % 16
+            p.append(lo if r == 0 else hi if r == 1 else lo + (hi - lo) * ((nxt() % 1024) / 1024.0))
+        if g.get("outside") and nxt() % g["outside"] == 0:
+            i = nxt() % len(p)
+            p[i] = bounds[i][1] + 1.5 if nxt() % 2 else bounds[i][0] - 0.75
+        out.append(p)
+    return out
 
 
 # ----------------------------------------------------------------------------- recording proxy
